@@ -78,14 +78,14 @@ func init() {
 		"(binary.bigEndian).Uint32":       encGet("BE32"),
 		"(binary.bigEndian).PutUint16":    encPut("BE16"),
 		"(binary.bigEndian).Uint16":       encGet("BE16"),
-		"(*badger.DB).View":    applyOnceTxn(false),
-		"(*badger.DB).Update":  applyOnceTxn(true),
-		"(*badger.Item).Value": applyOnceValue,
-		"atomic.AddInt64":      atomicAdd,
-		"atomic.AddInt32":      atomicAdd,
-		"atomic.AddUint64":     atomicAdd,
-		"atomic.LoadInt64":     atomicLoad,
-		"atomic.LoadInt32":     atomicLoad,
+		"(*badger.DB).View":               applyOnceTxn(false),
+		"(*badger.DB).Update":             applyOnceTxn(true),
+		"(*badger.Item).Value":            applyOnceValue,
+		"atomic.AddInt64":                 atomicAdd,
+		"atomic.AddInt32":                 atomicAdd,
+		"atomic.AddUint64":                atomicAdd,
+		"atomic.LoadInt64":                atomicLoad,
+		"atomic.LoadInt32":                atomicLoad,
 		"strconv.Atoi": func(f *Frame, c *ssa.CallCommon, a []Val, st *State) Val {
 			// digit strings convert exactly (str.to_int); anything else: value and error are left open
 			u := f.u
